@@ -615,6 +615,7 @@ def lirloop_compare(case, impl, model):
 # ------------------------------------------------------------------------------------------------
 
 TOUR = [
+    ('toint-every-digit', 'class Main {\n  function id(s: Str): Str = s\n  function p(n: int): unit = Process.println(Str.fromInt(n))\n  function main(): unit = {\n    Main.p(Main.id("0").toInt());\n    Main.p(Main.id("1").toInt());\n    Main.p(Main.id("2").toInt());\n    Main.p(Main.id("3").toInt());\n    Main.p(Main.id("4").toInt());\n    Main.p(Main.id("5").toInt());\n    Main.p(Main.id("6").toInt());\n    Main.p(Main.id("7").toInt());\n    Main.p(Main.id("8").toInt());\n    Main.p(Main.id("9").toInt());\n    Main.p(Main.id("10").toInt());\n    Main.p(Main.id("19").toInt());\n    Main.p(Main.id("90").toInt());\n    Main.p(Main.id("99").toInt());\n    Main.p(Main.id("1909").toInt());\n    Main.p(Main.id("-9").toInt());\n    Main.p(Main.id("-98").toInt());\n    Main.p(Main.id("-90").toInt());\n    Main.p(Main.id("1234567890").toInt());\n    Main.p(Main.id("987654321").toInt());\n    Main.p(Main.id("2147483647").toInt());\n    Main.p(Str.fromInt(Main.id("9").toInt() * 1111).toInt())\n  }\n}\n', ('0', '1', '2', '3', '4', '5', '6', '7', '8', '9', '10', '19', '90', '99', '1909', '-9', '-98', '-90', '1234567890', '987654321', '2147483647', '9999')),
     ('operators-strings', 'class Main {\n  function id(s: Str): Str = s\n  function lit(): Str = "const"\n  function main(): unit = {\n    let a = "17".toInt();\n    let b = "5".toInt();\n    Process.println(Str.fromInt(a / b));\n    Process.println(Str.fromInt(a % b));\n    Process.println(if a <= b { "le" } else { "gt" });\n    Process.println(if b <= b { "le" } else { "gt" });\n    Process.println(if a >= b { "ge" } else { "lt" });\n    Process.println(if b >= a { "ge" } else { "lt" });\n    Process.println(if a != b { "ne" } else { "eq" });\n    Process.println(if b != b { "ne" } else { "eq" });\n    let s = "lit";\n    let t = s;\n    Process.println(t :: "-" :: "x" :: "y");\n    Process.println("ab" :: "cd");\n    Process.println(if Main.id("ab") == "ab" { "same" } else { "diff" });\n    Process.println(if Main.id("ab") == "ac" { "same" } else { "diff" });\n    Process.println(if Main.id("ab") != "ac" { "ne" } else { "eq" });\n    Process.println(if Main.id("ab") != "ab" { "ne" } else { "eq" });\n    Process.println(Main.lit());\n    let nb = !(a < b);\n    Process.println(if nb { "T" } else { "F" });\n    let nc = !(b < a);\n    Process.println(if nc { "T" } else { "F" })\n  }\n}\n',
      ['3', '2', 'gt', 'le', 'ge', 'lt', 'ne', 'eq', 'lit-xy', 'abcd', 'same', 'diff', 'ne', 'eq', 'const', 'T', 'F']),
     ('patterns', 'class Pt(val x: int, val y: int) {}\nclass Sh(Ci(int), Re(int, int)) {}\nclass Opt<T>(None, Some(T)) {}\nclass W(Wa(Sh), Wb(int), Wc) {}\nclass Q(val a: Opt<int>, val b: int) {}\nclass Main {\n  function area(s: Sh): int = match s { Ci(r) -> r * r, Re(w, h) -> w * h }\n  function f(w: W): int = match w { Wa(Ci(v) | Re(_, v)) | Wb(v) -> v, Wc -> 0 - 1 }\n  function g(p: Pt): int = { let { x, y as z } = p; x * 10 + z }\n  function h(o: Opt<Pt>): int = match o { Some({ x, y as _ }) -> x, None -> 0 - 5 }\n  function k(o: Opt<int>): int = if let Some(v) = o { v + 1 } else { 0 }\n  function m(o: Opt<Opt<int>>): int = if let Some(Some(v)) = o { v } else { 0 - 2 }\n  function q(o: Opt<Q>): int = match o { Some({ a as Some(z), b }) -> z + b, Some({ a as None, b }) -> b, None -> 0 }\n  function p(n: int): unit = Process.println(Str.fromInt(n))\n  function main(): unit = {\n    Main.p(Main.area(Sh.Ci(3)));\n    Main.p(Main.area(Sh.Re(2, 5)));\n    Main.p(Main.f(W.Wa(Sh.Ci(4))));\n    Main.p(Main.f(W.Wa(Sh.Re(1, 6))));\n    Main.p(Main.f(W.Wb(7)));\n    Main.p(Main.f(W.Wc()));\n    Main.p(Main.g(Pt.init(3, 4)));\n    Main.p(Main.h(Opt.Some(Pt.init(8, 9))));\n    Main.p(Main.h(Opt.None<Pt>()));\n    Main.p(Main.k(Opt.Some(4)));\n    Main.p(Main.k(Opt.None<int>()));\n    Main.p(Main.m(Opt.Some(Opt.Some(3))));\n    Main.p(Main.m(Opt.Some(Opt.None<int>())));\n    Main.p(Main.m(Opt.None<Opt<int>>()));\n    Main.p(Main.q(Opt.Some(Q.init(Opt.Some(30), 4))));\n    Main.p(Main.q(Opt.Some(Q.init(Opt.None<int>(), 5))));\n    Main.p(Main.q(Opt.None<Q>()))\n  }\n}\n',
